@@ -142,6 +142,15 @@ OpTake == /\ En("tk")
                   /\ qlist' = Tail(qlist) /\ flist' = Append(flist, s) /\ occ' = [occ EXCEPT ![s] = 0]
                   /\ where' = [where EXCEPT ![occ[s]] = "done"] /\ bad' = Flag(occ[s] = 0, "clear-on-empty")
           /\ UNCHANGED <<lst, flt, nn, nf, nslot, ecount, frames, nuid, ndisp, ekey>> /\ H("tk", 0, 0)
+\* takeEvent followed by dispatch(queuedEvent): the taken event is dispatched directly, the queue no longer knows it
+OpTakeDispatch ==
+  /\ En("td") /\ ndisp < MaxDisp /\ Len(frames) < MaxDepth
+  /\ IF qlist = <<>> THEN UNCHANGED <<qlist, flist, occ, where, bad, frames, ndisp>>
+     ELSE LET s == Head(qlist) IN
+          /\ qlist' = Tail(qlist) /\ flist' = Append(flist, s) /\ occ' = [occ EXCEPT ![s] = 0]
+          /\ where' = [where EXCEPT ![occ[s]] = "done"] /\ bad' = Flag(occ[s] = 0, "clear-on-empty")
+          /\ frames' = Append(frames, NewD(ekey[occ[s]], 0, TRUE)) /\ ndisp' = ndisp + 1
+  /\ UNCHANGED <<lst, flt, nn, nf, nslot, ecount, nuid, ekey>> /\ H("td", 0, 0)
 OpClear == /\ En("cl")
            /\ qlist' = <<>> /\ flist' = flist \o qlist
            /\ occ' = [s \in Slots |-> IF InSeq(qlist, s) THEN 0 ELSE occ[s]]
@@ -230,7 +239,7 @@ Next == \/ \E e \in Events : \/ OpAppendL(e) \/ OpPrependL(e) \/ OpAppendW("aw",
                              \/ OpQueryL("hl", e, 0) \/ OpQueryL("fl", e, 0) \/ OpForEachUser(e)
         \/ OpAppendF \/ \E h \in 1..MaxFilters : OpRemoveF(h)
         \/ OpProcess("pa", "all") \/ OpProcess("po", "one") \/ OpProcess("pi", "if") \/ OpProcess("pu", "until")
-        \/ OpPeek \/ OpTake \/ OpClear \/ OpEmptyQ \/ OpEndNoDrain
+        \/ OpPeek \/ OpTake \/ OpTakeDispatch \/ OpClear \/ OpEmptyQ \/ OpEndNoDrain
         \/ RetThrow
         \/ RetListener \/ \E d \in 0..1, v \in 0..1 : RetFilter(d, v)
         \/ \E v \in 0..1 : RetPred(v)
